@@ -78,3 +78,35 @@ package document
 //@   invariant forall e int :: {xmlOpen(e)} e < xmlPos() && kidEnd(old(xmlPos()), e, old(xmlDepth(xmlPos())), "headerReference") ==> 0 <= kidCnt(old(xmlPos()), xmlOpen(e), "headerReference") && kidCnt(old(xmlPos()), xmlOpen(e), "headerReference") < len(sectPr.HeaderReferences) && live(sectPr.HeaderReferences[kidCnt(old(xmlPos()), xmlOpen(e), "headerReference")]) && sectPr.HeaderReferences[kidCnt(old(xmlPos()), xmlOpen(e), "headerReference")] != nil && sectPr.HeaderReferences[kidCnt(old(xmlPos()), xmlOpen(e), "headerReference")].Type == hfType(xmlOpen(e)) && sectPr.HeaderReferences[kidCnt(old(xmlPos()), xmlOpen(e), "headerReference")].ID == hfID(xmlOpen(e))
 //@   invariant forall e int :: {xmlOpen(e)} e < xmlPos() && kidEnd(old(xmlPos()), e, old(xmlDepth(xmlPos())), "footerReference") ==> 0 <= kidCnt(old(xmlPos()), xmlOpen(e), "footerReference") && kidCnt(old(xmlPos()), xmlOpen(e), "footerReference") < len(sectPr.FooterReferences) && live(sectPr.FooterReferences[kidCnt(old(xmlPos()), xmlOpen(e), "footerReference")]) && sectPr.FooterReferences[kidCnt(old(xmlPos()), xmlOpen(e), "footerReference")] != nil && sectPr.FooterReferences[kidCnt(old(xmlPos()), xmlOpen(e), "footerReference")].Type == hfType(xmlOpen(e)) && sectPr.FooterReferences[kidCnt(old(xmlPos()), xmlOpen(e), "footerReference")].ID == hfID(xmlOpen(e))
 //@   decreases xmlRem()
+
+// parseRun, the text of a run (C03: "same text, including leading/trailing spaces"; C04: the text carried by a run is not lost):
+// the run's text is the character data of its LAST w:t child, untrimmed whatever xml:space says, and Text.Space is that
+// child's space attribute. Stated for token sequences in which a text element holds at most one character-data token and no
+// markup (plainT; WordprocessingML's w:t has simple content) - readElementText stops at the first end tag named "t", so with
+// a start tag inside a w:t the walker's position is not determined by the nesting any more (see the report: no claim there).
+//@ spec plainT(p0 int) bool = forall s int :: {xmlTok(s)} p0 <= s && tokIsStart(s) && tokLocal(s) == "t" ==> tokIsEnd(s + 1) || (tokIsChar(s + 1) && tokIsEnd(s + 2))
+// lastKidEnd(p0, p, name): position of the END tag of the last complete child named name among the children in [p0, p); -1: none
+//@ spec lastKidEnd(p0 int, p int, name string) int = ite(p <= p0 || p <= 0, -1, ite(closesKid(p0, p), ite(tokLocal(xmlOpen(p - 1)) == name, p - 1, lastKidEnd(p0, xmlOpen(p - 1), name)), lastKidEnd(p0, p - 1, name)))
+//@ spec runText(r *Run, e int) bool = ite(e < 0, r.Text.Content == "" && r.Text.Space == "", r.Text.Content == charsCat(xmlOpen(e) + 1, e) && r.Text.Space == av(xmlOpen(e), "space"))
+//@ func (*Document).parseRun
+//@ props C06, C03, C04
+//@ requires d != nil && decoder != nil
+//@ requires xmlPos() >= 1 && tokIsStart(xmlPos() - 1) && tokLocal(xmlPos() - 1) == "r"
+//@ ensures xmlRem() <= old(xmlRem())
+//@ ensures old(d.Body) != nil ==> d.Body != nil
+//@ ensures old(d.Body) != nil && old(elemsOK(d.Body.Elements)) ==> elemsOK(d.Body.Elements)
+//@ ensures err == nil ==> result0 != nil
+//@ ensures xmlPos() >= old(xmlPos())
+//@ ensures err == nil && plainT(old(xmlPos())) ==> xmlPos() > old(xmlPos()) && tokIsEnd(xmlPos() - 1) && xmlDepth(xmlPos()) == old(xmlDepth(xmlPos())) - 1
+//@ ensures err == nil && plainT(old(xmlPos())) ==> forall k int :: {xmlDepth(k)} old(xmlPos()) <= k && k < xmlPos() ==> xmlDepth(k) >= old(xmlDepth(xmlPos()))
+//@ ensures err == nil && plainT(old(xmlPos())) ==> runText(result0, lastKidEnd(old(xmlPos()), xmlPos() - 1, "t"))
+//@ loop 1
+//@   invariant xmlRem() <= old(xmlRem())
+//@   invariant old(d.Body) != nil ==> d.Body != nil
+//@   invariant old(d.Body) != nil && old(elemsOK(d.Body.Elements)) ==> elemsOK(d.Body.Elements)
+//@   invariant run != nil && fresh(run)
+//@   invariant xmlPos() >= old(xmlPos())
+//@   invariant plainT(old(xmlPos())) ==> xmlDepth(xmlPos()) == old(xmlDepth(xmlPos()))
+//@   invariant plainT(old(xmlPos())) ==> forall k int :: {xmlDepth(k)} old(xmlPos()) <= k && k < xmlPos() ==> xmlDepth(k) >= old(xmlDepth(xmlPos()))
+//@   invariant plainT(old(xmlPos())) ==> runText(run, lastKidEnd(old(xmlPos()), xmlPos(), "t"))
+//@   decreases xmlRem()
